@@ -3,5 +3,5 @@ CONSTANTS
   Wide = FALSE
   MaxCalls = 4
   RepN = {0, 2}
-INVARIANTS LeftToRight StopsAtFirstFailure ErrorLocates PrefixOfFullRun ScorerFaithful Emit
+INVARIANTS LeftToRight StopsAtFirstFailure EmptySelectionFails ErrorLocates PrefixOfFullRun ScorerFaithful Emit
 CHECK_DEADLOCK FALSE
